@@ -7,10 +7,31 @@ theorem foldl_rm_removes (t : Name) (p : Path) :
   fun l st hp => foldl_removes (rmTarget false t) (fun p => [p]) (rmTarget_frame false t) p (fun x => x = p)
     (fun st x hx => hx ▸ rmTarget_removes t st x) l st ⟨p, hp, rfl⟩
 
-theorem rmTarget_rmdir (t : Name) (s : World × List Ev) (d : Path) (hnf : d ∉ s.1.files)
-    (he : hasEntry s.1 d = false) : d ∉ (rmTarget false t s d).1.dirs := by
+theorem rmTarget_links_nil (dry : Bool) (t : Name) (s : World × List Ev) (p : Path) (h : s.1.links = []) :
+    (rmTarget dry t s p).1.links = [] := by
   unfold rmTarget
-  simp only [hnf, if_false, he, Bool.false_eq_true]
+  have hl : (linkDest s.1 p).isSome = false := by simp [linkDest, h, alookup]
+  simp only [hl, Bool.false_eq_true, if_false]
+  split
+  · cases dry <;> exact h
+  · split
+    · split
+      · exact h
+      · cases dry <;> exact h
+    · exact h
+
+theorem foldl_links_nil (dry : Bool) (t : Name) : ∀ (l : List Path) (s : World × List Ev), s.1.links = [] →
+    (l.foldl (rmTarget dry t) s).1.links = [] := by
+  intro l
+  induction l with
+  | nil => intro s h; exact h
+  | cons x l ih => intro s h; simp only [List.foldl_cons]; exact ih _ (rmTarget_links_nil dry t s x h)
+
+theorem rmTarget_rmdir (t : Name) (s : World × List Ev) (d : Path) (hnf : d ∉ s.1.files)
+    (hl : s.1.links = []) (he : hasEntry s.1 d = false) : d ∉ (rmTarget false t s d).1.dirs := by
+  unfold rmTarget
+  have hl' : (linkDest s.1 d).isSome = false := by simp [linkDest, hl, alookup]
+  simp only [hnf, if_false, hl', he, Bool.false_eq_true]
   split
   · simp
   · assumption
@@ -18,7 +39,7 @@ theorem rmTarget_rmdir (t : Name) (s : World × List Ev) (d : Path) (hnf : d ∉
 /-- a target directory whose whole content are target files of the same task is removed: the files inside are
     handled first (`sortDesc` puts them before the directory), so `os.listdir` finds it empty -/
 theorem cleanTargets_rmdir (t : Name) (targets : List Path) (st : World × List Ev) (d : Path)
-    (hd : d ∈ targets) (hnf : d ∉ st.1.files)
+    (hd : d ∈ targets) (hnf : d ∉ st.1.files) (hnl : st.1.links = [])
     (hfiles : ∀ q, q ∈ st.1.files → below d q = true → q ∈ targets)
     (hdirs : ∀ q, q ∈ st.1.dirs → below d q = false) :
     d ∉ (cleanTargets false t targets st).1.dirs := by
@@ -29,7 +50,7 @@ theorem cleanTargets_rmdir (t : Name) (targets : List Path) (st : World × List 
   -- after the part of the walk before `d`, nothing is left below `d`
   have hempty : hasEntry (l1.foldl (rmTarget false t) st).1 d = false := by
     unfold hasEntry
-    rw [List.any_eq_false]
+    rw [foldl_links_nil false t l1 st hnl, List.map_nil, List.append_nil, List.any_eq_false]
     intro q hq
     simp only [List.mem_append] at hq
     rcases hq with hq | hq
@@ -51,7 +72,7 @@ theorem cleanTargets_rmdir (t : Name) (targets : List Path) (st : World × List 
       simp [this]
   have hnf1 : d ∉ (l1.foldl (rmTarget false t) st).1.files := fun h => hnf (hf1.fsub d h)
   have hstep : d ∉ (rmTarget false t (l1.foldl (rmTarget false t) st) d).1.dirs :=
-    rmTarget_rmdir t _ d hnf1 hempty
+    rmTarget_rmdir t _ d hnf1 (foldl_links_nil false t l1 st hnl) hempty
   have hf2 := foldl_frame (rmTarget false t) (fun p => [p]) (rmTarget_frame false t) l2
     (rmTarget false t (l1.foldl (rmTarget false t) st) d)
   exact fun h => hstep (hf2.dsub d h)
